@@ -26,7 +26,7 @@ def run_property(prop, overrides=None, repo=None):
         raise AnalysisError('no check registered for property {}'.format(prop))
     fn(ctx, rep)
     from .report import model_precedence
-    model_precedence(rep)
+    model_precedence(rep, ctx)
     return rep
 
 
